@@ -1,5 +1,5 @@
 """C03 -- mask: exact residual signature after n positionals and named arguments."""
-from ..rules_mask import (MaskModel, rule_mask_hide, rule_mask_names, rule_mask_consume, rule_mask_binding)
+from ..rules_mask import (MaskModel, rule_mask_hide, rule_mask_names, rule_mask_consume, rule_mask_binding, rule_mask_flag_independence)
 
 EXPLANATION = (
     "Static analysis (path-sensitive abstract-effect analysis of _mask, no execution). Decides the structural "
@@ -38,6 +38,7 @@ def run(check):
     from ..rules_classes import rule_replace_and_slots
     check.run_rule('C03.R7', lambda c: rule_replace_and_slots(c, 'C03.R7', classes=['UpgradedSignature'], only_base_overrides=True))
     check.run_rule('C03.R3', lambda c: rule_mask_consume(c, model(), 'C03.R3'))
+    check.run_rule('C03.R8', lambda c: rule_mask_flag_independence(c, model(), 'C03.R8'))
     check.run_rule('C03.R5', lambda c: rule_mask_hide(c, model(), 'C03.R5', None))
     from ..rules_defaults import rule_neutral_defaults
     check.run_rule('C03.R5d', lambda c: rule_neutral_defaults(c, 'C03.R5', 'mask'))
